@@ -201,7 +201,8 @@ func (p *IGMPv3Query) UnmarshalBinary(data []byte) error {
 	n += 1
 	p.NumberOfSources = binary.BigEndian.Uint16(data[n:])
 	n += 2
-	if len(data) < int(p.Len()) {
+	// computed in int: the 16-bit Len() wraps for 16381 sources and more
+	if len(data) < 12+int(p.NumberOfSources)*4 {
 		return fmt.Errorf("The []byte is too short to unmarshal a full IGMPv3Query message.")
 	}
 	for j := 0; j < int(p.NumberOfSources); j++ {
@@ -300,7 +301,8 @@ func (p *IGMPv3GroupRecord) UnmarshalBinary(data []byte) error {
 	p.MulticastAddress = make([]byte, 4)
 	copy(p.MulticastAddress, data[n:n+4])
 	n += 4
-	if len(data) < int(p.Len()) {
+	// computed in int: the 16-bit Len() wraps for large source counts
+	if len(data) < 8+int(p.AuxDataLen)*4+int(p.NumberOfSources)*4 {
 		return fmt.Errorf("The []byte is too short to unmarshal a full IGMPv3GroupRecord message.")
 	}
 	for i := uint16(0); i < p.NumberOfSources; i++ {
